@@ -367,6 +367,8 @@ def check_c11(seed, n):
         opts = options(rng)
         cmds = gen_run_cmds(rng, 0)
         r = c11_case(text, opts, cmds)
+        if cmds and r != "skip":
+            proto.sample("c11", {"text": text[:400], "opts": opts, "cmds": cmds})
         if r == "skip":
             continue
         evals += 1
@@ -499,6 +501,7 @@ def check_c12(seed, n):
             continue
         cmds = gen_c12_cmds(rng, prog)
         r, done = c12_case(text, opts, cmds)
+        proto.sample("c12", {"text": text[:400], "opts": opts, "cmds": cmds})
         if r == "skip":
             continue
         evals += done
@@ -632,6 +635,7 @@ def check_c13(seed, n):
             continue
         cmds = gen_c13_cmds(rng, prog)
         r, done = c13_case(text, opts, cmds)
+        proto.sample("c13", {"text": text[:400], "opts": opts, "cmds": cmds})
         if r == "skip":
             continue
         evals += done
